@@ -390,4 +390,116 @@ theorem run_cleanup_size {cfg : Cfg} {s s' : St} {outs : List Out} (a : AInv cfg
     rw [fr.1, fr.2.1]
     exact hsz
 
+/-! ## maintenance ticks and released cache sets -/
+
+theorem seqReach_runSeq {cfg : Cfg} {s s' : St} {ops : List Op} {outs : List (List Out)} (hr : SeqReach cfg s)
+    (h : runSeq cfg s ops = some (s', outs)) : SeqReach cfg s' := by
+  induction ops generalizing s s' outs with
+  | nil => simp only [runSeq, Option.some.injEq, Prod.mk.injEq] at h; rw [← h.1]; exact hr
+  | cons o os ih =>
+    simp only [runSeq] at h
+    split at h
+    · exact absurd h (by simp)
+    · rename_i s1 o1 hop
+      split at h
+      · exact absurd h (by simp)
+      · rename_i s2 os2 hrun
+        simp only [Option.some.injEq, Prod.mk.injEq] at h
+        rw [← h.1]
+        exact ih (SeqReach.op hr hop) hrun
+
+/-- `CleanEmptyGenerations` and `ReleaseBuckets` do not touch the maps -/
+theorem seqOp_gc_heap {cfg : Cfg} {s s' : St} {o : List Out} {op : Op} (hop : op = .cleanEmpty ∨ op = .releaseBuckets)
+    (h : seqOp cfg s op = some (s', o)) : s'.heap = s.heap := by
+  rcases hop with rfl | rfl
+  · simp only [seqOp] at h
+    cases hce : cleanEmpty s with
+    | none => rw [hce] at h; simp at h
+    | some r =>
+      rw [hce] at h
+      simp only [Option.map_some, Option.some.injEq, Prod.mk.injEq] at h
+      rw [← h.1]
+      unfold cleanEmpty at hce
+      split at hce
+      · cases hce
+      · simp only [Option.some.injEq] at hce; rw [← hce]
+  · simp only [seqOp, Option.some.injEq, Prod.mk.injEq] at h
+    rw [← h.1]
+
+/-- after a quiet tick the maps hold at most `sizeLimit`, whether or not the tick rotated -/
+theorem tick_bounded {cfg : Cfg} (hes : 0 < cfg.entrySize) (hlim : 0 < cfg.sizeLimit) {s s' : St} {gc : Bool}
+    {outs : List (List Out)} (hr : SeqReach cfg s) (h : runSeq cfg s (tickOps gc) = some (s', outs)) :
+    liveSum s'.heap ≤ cfg.sizeLimit := by
+  have split2 : ∀ {a : St} {ops : List Op} {op : Op} {b : St} {o : List (List Out)},
+      runSeq cfg a (op :: ops) = some (b, o) → ∃ m om o', seqOp cfg a op = some (m, om) ∧ runSeq cfg m ops = some (b, o') := by
+    intro a ops op b o h
+    simp only [runSeq] at h
+    split at h
+    · exact absurd h (by simp)
+    · rename_i m om hop
+      split at h
+      · exact absurd h (by simp)
+      · rename_i b' o' hrun
+        simp only [Option.some.injEq, Prod.mk.injEq] at h
+        exact ⟨m, om, o', hop, by rw [hrun, h.1]⟩
+  unfold tickOps at h
+  obtain ⟨s1, _, _, h1, hrest⟩ := split2 h
+  obtain ⟨s2, _, _, h2, hrest2⟩ := split2 hrest
+  have hr1 : SeqReach cfg s1 := SeqReach.op hr h1
+  have q1 := seqReach_sinv hr1
+  have hb : liveSum s2.heap ≤ cfg.sizeLimit := by
+    have hrun := seqOp_eq_run cfg (q1.idle 0) q1.todo h2
+    have hsz := run_cleanup_size (reach_ainv cfg hes (seqReach_reach hr1)) q1.todo hlim hrun
+    have hacc := (reach_ainv cfg hes (run_reach (seqReach_reach hr1) hrun)).accounting hsz.2
+    rw [← hacc]; exact hsz.1
+  cases gc with
+  | false =>
+    have : runSeq cfg s2 [] = some (s', _) := hrest2
+    simp only [runSeq, Option.some.injEq, Prod.mk.injEq] at this
+    rw [← this.1]; exact hb
+  | true =>
+    have hrest2' : runSeq cfg s2 [.cleanEmpty, .releaseBuckets] = some (s', _) := hrest2
+    obtain ⟨s3, _, _, h3, hrest3⟩ := split2 hrest2'
+    obtain ⟨s4, _, _, h4, hrest4⟩ := split2 hrest3
+    simp only [runSeq, Option.some.injEq, Prod.mk.injEq] at hrest4
+    rw [← hrest4.1, seqOp_gc_heap (Or.inr rfl) h4, seqOp_gc_heap (Or.inl rfl) h3]; exact hb
+
+/-- releasing a set of caches marks every one of them released -/
+theorem run_releaseAll {cfg : Cfg} {cs : List Nat} {s s' : St} {outs : List Out}
+    (h : run cfg s (releaseAllLabels cs) = some (s', outs)) :
+    (∀ c ∈ cs, s'.released c = true) ∧ (∀ c, s.released c = true → s'.released c = true) := by
+  induction cs generalizing s s' outs with
+  | nil =>
+    simp only [releaseAllLabels, List.map_nil, run, Option.some.injEq, Prod.mk.injEq] at h
+    rw [← h.1]; exact ⟨fun _ hc => absurd hc (by simp), fun _ h => h⟩
+  | cons c cs ih =>
+    simp only [releaseAllLabels, List.map_cons, run] at h
+    split at h
+    · exact absurd h (by simp)
+    · rename_i s1 o1 hstep
+      split at h
+      · exact absurd h (by simp)
+      · rename_i s2 os hrun
+        simp only [Option.some.injEq, Prod.mk.injEq] at h
+        rw [← h.1]
+        have hrel1 : ∀ x, (x = c ∨ s.released x = true) → s1.released x = true := by
+          intro x hx
+          simp only [step] at hstep
+          split at hstep
+          · simp only [Option.some.injEq, Prod.mk.injEq] at hstep
+            rw [← hstep.1]
+            show mget false (mset false s.relL c true) x = true
+            rw [mget_mset]
+            rcases hx with rfl | hx
+            · simp
+            · split
+              · rfl
+              · exact hx
+          · exact absurd hstep (by simp)
+        have := ih (s := s1) hrun
+        refine ⟨fun x hx => ?_, fun x hx => this.2 x (hrel1 x (Or.inr hx))⟩
+        rcases List.mem_cons.mp hx with rfl | hx
+        · exact this.2 x (hrel1 x (Or.inl rfl))
+        · exact this.1 x hx
+
 end SV.Cache
